@@ -118,6 +118,11 @@ func scenarios() []scenario {
 		dump.File{Name: "y.yang", Text: `module y { ` + H("y") + ` typedef t { type int32; } identity b; grouping g { leaf gy { type t; } } container cy; }`},
 		dump.File{Name: "m.yang", Text: `module m { ` + H("m") + ` import x { prefix p; } include s1; typedef tm { type p:t; } identity im { base p:b; } leaf lm { type tm; } leaf lm2 { type p:t; } container um { uses p:g; } augment /p:cx { leaf am { type p:t; } } leaf rm { type identityref { base p:b; } } }`},
 		dump.File{Name: "s1.yang", Text: `submodule s1 { belongs-to m { prefix m; } import y { prefix p; } typedef ts { type p:t; } identity is { base p:b; } leaf ls { type ts; } leaf ls2 { type p:t; } container us { uses p:g; } augment /p:cy { leaf as { type p:t; } } leaf rs { type identityref { base p:b; } } }`})
+	// two revisions of a module include the same submodule
+	add("two-revisions-share-submodule", []string{"two-revisions-include-one-submodule"},
+		dump.File{Name: "m1.yang", Text: `module m { ` + H("m") + ` revision 2020-01-01; include s; leaf a { type t; } }`},
+		dump.File{Name: "m2.yang", Text: `module m { ` + H("m") + ` revision 2021-01-01; include s; leaf b { type t; } }`},
+		dump.File{Name: "s.yang", Text: `submodule s { belongs-to m { prefix m; } typedef t { type int8; } leaf sl { type t; } container sc { leaf x { type string; } } }`})
 	add("uses-and-typedef-cross", nil, a, dump.File{Name: "g.yang", Text: `module g { ` + H("g") + ` typedef t { type int8 { range "1..9"; } } grouping gg { leaf gl { type t; } container gc { leaf gd { type t; default 3; } } } }`},
 		dump.File{Name: "u.yang", Text: `module u { ` + H("u") + ` import g { prefix g; } import a { prefix a; } typedef t { type string; } container k1 { uses g:gg; } container k2 { uses g:gg; leaf own { type t; } } augment /a:c { uses g:gg; } deviation /u:k1/u:gl { deviate replace { type string; } } }`})
 	// pairwise combinations of scenarios that extend module a with differently named modules
